@@ -605,6 +605,68 @@ def variant_shard(dtf, N):
                     tally.violation("insert:int-times", {"record": "integer time tensor", "N": N}, f"insert at int64 times then select returned {got}", [1000.0, 1001.0], got)
             except Exception as ex:
                 tally.violation(f"insert:int-times:exception:{type(ex).__name__}", {"record": "integer time tensor", "N": N}, f"{type(ex).__name__}: {ex}", None, repr(ex))
+    # ---- (6) a record that still holds its construction value (never pushed): the first modification is an in-place insert
+    for mode in ("scalar", "tensor"):
+        for k in range(N):
+            for frac in ((F(0), F(1, 4)) if k < N - 1 else (F(0),)):
+                tally.add("evaluations")
+                ring = Ring(dt, N, E, 0)
+                t = float(dt * k + dt * frac)
+                targ = t if mode == "scalar" else torch.full((E,), t)
+                case = {"record": "fresh from its construction value, first write in place", "dt": float(dt), "N": N, "time": t, "mode": mode}
+                try:
+                    ring.rt.insert(torch.tensor([1000.0, 1001.0]), targ, fn.extrap_neighbors, tolerance=0.0, offset=1, inplace=True)
+                    exp = [list(r) for r in ring.M]
+                    exp[(1 + k) % N] = [1000.0, 1001.0]
+                    if frac:
+                        exp[(2 + k) % N] = [1000.0, 1001.0]
+                    got = ring.storage_logical()
+                    if got != exp:
+                        tally.violation(f"insert:{mode}:fresh-record-inplace", case, f"storage after the insert {got}, expected {exp}", exp, got)
+                    tally.mark("nontrivial", ("fresh-inplace", float(dt), N, mode, k, float(frac)))
+                except Exception as ex:
+                    tally.violation(f"insert:fresh-record-inplace:exception:{type(ex).__name__}", case, repr(ex))
+    # ---- (7) records of 0-dimensional observations answer like the one-element record (scalar times, off the grid too)
+    if N >= 2:
+        def pair(pushes):
+            out = []
+            for shp in ((), (1,)):
+                m = inferno.Module()
+                RecordTensor.create(m, "rec", float(dt), max(float(dt) * (N - 1) - 1e-9, 0.0), torch.zeros(shp), inclusive=True)
+                for j in range(pushes):
+                    m.rec.push(torch.full(shp, float(8 * (j + 1))))
+                out.append(m)  # (the record only holds a weak reference to its owner)
+            return out
+        for pushes in (N, N + 1):
+            for k in range(N - 1):
+                t = float(dt * k + dt / 4)
+                for iname, (ifn, ikw) in INTERPS.items():
+                    tally.add("evaluations")
+                    m0, m1 = pair(pushes)
+                    r0, r1 = m0.rec, m1.rec
+                    case = {"record": "0-d observations", "dt": float(dt), "N": N, "pushes": pushes, "time": t, "interp": iname}
+                    try:
+                        a = r0.select(t, ifn, tolerance=0.0, offset=1, interp_kwargs=ikw)
+                        b = r1.select(t, ifn, tolerance=0.0, offset=1, interp_kwargs=ikw)
+                        if tuple(a.shape) != () or float(a) != float(b[0]):
+                            tally.violation("select:scalar:0-d-observations", case, f"record of 0-d observations returned shape {tuple(a.shape)} value {a.tolist()}; the "
+                                            f"one-element record returns {b.tolist()}", b.tolist(), a.tolist())
+                    except Exception as ex:
+                        tally.violation(f"select:0-d-observations:exception:{type(ex).__name__}", case, repr(ex))
+                for ename, (efn, ekw) in EXTRAPS.items():
+                    tally.add("evaluations")
+                    m0, m1 = pair(pushes)
+                    r0, r1 = m0.rec, m1.rec
+                    case = {"record": "0-d observations", "dt": float(dt), "N": N, "pushes": pushes, "time": t, "extrap": ename}
+                    try:
+                        r0.insert(torch.tensor(1000.0), t, efn, tolerance=0.0, offset=1, extrap_kwargs=ekw)
+                        r1.insert(torch.tensor([1000.0]), t, efn, tolerance=0.0, offset=1, extrap_kwargs=ekw)
+                        a, b = r0.value.reshape(-1).tolist(), r1.value.reshape(-1).tolist()
+                        if tuple(r0.value.shape) != (N,) or a != b or r0.pointer != r1.pointer:
+                            tally.violation("insert:scalar:0-d-observations", case, f"storage {a} (shape {tuple(r0.value.shape)}), the one-element record holds {b}", b, a)
+                        tally.mark("nontrivial", ("0-d", float(dt), N, pushes, k, ename))
+                    except Exception as ex:
+                        tally.violation(f"insert:0-d-observations:exception:{type(ex).__name__}", case, repr(ex))
     tally.sample({"part": "variants", "dt": float(dt), "N": N})
     return tally
 
